@@ -261,7 +261,11 @@ def translate():
              "inherited list object itself) -/")
     L.append("def setDisplayProbe : List (Bool × List Nat × List Nat × List Nat × Bool) := [")
     L.append(",\n".join(f"  ({lean_bool(f)}, {lean_nats(p)}, {lean_nats(m)}, {lean_nats(r)}, {lean_bool(a)})"
-                        for f, p, m, r, a in pr["set_display"]) + "]")
+                        for f, p, m, r, a in pr["set_display"][0]) + "]")
+    L.append("/-- the (class of the probe project, `meta.proc_internals`) subjects `setDisplayProbe` was measured on; the "
+             "table is the set of all their outcomes -/")
+    L.append("def setDisplaySubjects : List (String × Bool) := ["
+             + ", ".join(f"({lean_str(c)}, {lean_bool(b)})" for c, b in pr["set_display"][1]) + "]")
     L.append("/-- `_should_display` / `filter_display` truth table per distinct implementation among the classes of the probe "
              "project: (classes, rows (hide_undoc, documented, permission code, display codes, kept)) -/")
     L.append("def shouldDisplayProbe : List (List String × List (Bool × Bool × Nat × List Nat × Bool)) := [")
